@@ -1993,7 +1993,7 @@ func _fontFeatureSettings(tokens []Token) (pr.FontFeatures, bool) {
 			tokens, token = tokens[0:1], tokens[1]
 			switch tt := token.(type) {
 			case pa.Ident:
-				if tt.Value == "on" {
+				if utils.AsciiLower(tt.Value) == "on" {
 					value = 1
 				} else {
 					value = 0
